@@ -180,6 +180,8 @@ def dist_cases(R, quick):
     nrand = 1 if quick else 4
     out = list(fixed)
     for fam in sorted(gens):
+        if quick and fam in ("Beta", "TruncNormal"):
+            continue        # sympy needs up to a minute per case for these; the fixed parameter sets stay
         for _ in range(nrand):
             c = (fam, gens[fam]())
             if c not in out:
